@@ -203,6 +203,49 @@ def fmt3(ctx: Ctx) -> None:
 _NL_SCOPE: List[ast.AST] = []
 
 
+_NL_MOD: List[Mod] = []
+
+
+def _helper_keeps_newline(e: ast.AST, ok_vars: Set[str]) -> Optional[bool]:
+    """`helper(text)` where helper is a module-level function of one parameter and text ends in a newline: evaluate the helper
+    (engine MINI) on a short and on a very long text ending in a newline.  True: every result ends in a newline; False: some
+    result does not (the line is no longer newline-terminated for such texts); None: not such a call / outside the fragment"""
+    if not (_NL_MOD and isinstance(e, ast.Call) and isinstance(e.func, ast.Name) and len(e.args) == 1 and not e.keywords):
+        return None
+    mod = _NL_MOD[-1]
+    hf = mod.defs.get(e.func.id)
+    if not isinstance(hf, ast.FunctionDef) or len(hf.args.args) != 1 or hf.args.vararg or hf.args.kwarg or hf.args.kwonlyargs:
+        return None
+    if not _ends_nl(e.args[0], ok_vars):
+        return None
+    from ..minieval import Mini, Raised, Unsupported, _Return
+    consts = {}
+    for n_ in mod.tree.body:
+        if isinstance(n_, (ast.Assign, ast.AnnAssign)) and isinstance(getattr(n_, "value", None), ast.Constant):
+            t_ = n_.targets[0] if isinstance(n_, ast.Assign) else n_.target
+            if isinstance(t_, ast.Name):
+                consts[t_.id] = n_.value.value
+    verdict = True
+    for text in ("ab\n", "x" * 100000 + "\n", "\n"):
+        m = Mini(dict(consts, **{hf.args.args[0].arg: text}), {}, {})
+        res = None
+        try:
+            try:
+                for st in hf.body:
+                    m.stmt(st)
+            except _Return as r:
+                res = r.value
+        except (Unsupported, Raised):
+            return None
+        except Exception:
+            return None
+        if not isinstance(res, str):
+            return None
+        if not res.endswith("\n") or res.count("\n") != 1:
+            verdict = False
+    return verdict
+
+
 def _ends_nl(e: ast.AST, ok_vars: Set[str]) -> bool:
     if isinstance(e, ast.Name) and e.id not in ok_vars and _NL_SCOPE:
         # a local bound once: judge its value
@@ -221,6 +264,8 @@ def _ends_nl(e: ast.AST, ok_vars: Set[str]) -> bool:
         return True  # every return of Stack._format_header is itself checked to end in a newline
     if isinstance(e, ast.IfExp):
         return _ends_nl(e.body, ok_vars) and _ends_nl(e.orelse, ok_vars)
+    if _helper_keeps_newline(e, ok_vars) is True:
+        return True
     # "...{}\n".format(...) / "...%s\n" % (...): the text after the last placeholder is literal
     if isinstance(e, ast.Call) and isinstance(e.func, ast.Attribute) and e.func.attr == "format":
         t = e.func.value
@@ -257,6 +302,8 @@ def _surely_no_newline(mod: Mod, fn: ast.AST, e: ast.AST) -> bool:
         return False
     if isinstance(e, ast.Call) and (norm(e.func) == "repr" or (isinstance(e.func, ast.Attribute) and e.func.attr in ("strip", "rstrip"))):
         return True
+    if _helper_keeps_newline(e, {"line", "subline"}) is False:
+        return True  # a helper applied to a finished line returns it without its newline for some texts
     if isinstance(e, ast.Attribute) and e.attr == "linetext":
         return True  # Frame.linetext is documented (and implemented) as stripped text without a newline
     if isinstance(e, ast.Name):
@@ -274,6 +321,7 @@ def fmt5(ctx: Ctx) -> None:
         fn = mod.fn(q)
         ctx.R.saw(mod, q)
         _NL_SCOPE.append(fn)
+        _NL_MOD.append(mod)
         okv = {"line", "subline"}
         for s in ast.walk(fn):
             exprs: List[ast.AST] = []
@@ -298,6 +346,7 @@ def fmt5(ctx: Ctx) -> None:
                 else:
                     ctx.R.fail("FMT-5", mod, s, f"{q}: a produced line does not end in a newline: str() glues it to the next line", construct=f"{q}: {norm(e)[:80]}")
     del _NL_SCOPE[:]
+    del _NL_MOD[:]
     if n < 12:
         raise AnalysisError(f"FMT-5: {n} produced lines found (>= 12 confirmed by hand)")
     # _format_error splits embedded newlines
@@ -516,6 +565,9 @@ def fmt8(ctx: Ctx) -> None:
     r = [s for s in ast.walk(sm) if isinstance(s, ast.Return)]
     if r and all(x.value is not None and norm(x.value).startswith("traceback.StackSummary.from_list(self._frame_summaries(") for x in r):
         ctx.R.ok("FMT-8", "as_stdlib_summary builds a traceback.StackSummary from the frame summaries (on every return)")
+    elif r and all(x.value is not None and norm(x.value).startswith("traceback.StackSummary.from_list(") for x in r) and any(norm(x.value).startswith("traceback.StackSummary.from_list(self._frame_summaries(") for x in r):
+        # an additional return that builds the list some other way (a fast path): which entries it holds is not decided here
+        ctx.R.undecided("FMT-8", "as_stdlib_summary has a return that builds its StackSummary from something other than self._frame_summaries(...)")
     else:
         ctx.R.fail("FMT-8", mod, sm, "every return of as_stdlib_summary must be traceback.StackSummary.from_list(self._frame_summaries(...)): one entry per visible Frame of this Stack", construct="as_stdlib_summary returns")
     # who may produce summary entries: only the two FrameSummary(...) constructions; re-extracting from live
@@ -701,6 +753,17 @@ def mode_rules(ctx: Ctx) -> None:
             if isinstance(n, ast.Attribute) and n.attr == "_can_use_trickery" and isinstance(n.ctx, ast.Store):
                 ctx.R.fail("MODE-1", m, n, "the mode switch is written from outside its two owners")
     allowed = {("_lowlevel", "set_trickery_enabled"), ("_lowlevel", "_check_trickery_available")}
+
+    def callers_of(name: str):
+        return [(m_, m_.qualname_of(c_)) for m_ in ctx.P.analysed_mods() for c_ in ast.walk(m_.tree) if isinstance(c_, ast.Call) and norm(c_.func).split(".")[-1] == name]
+    for key in [k for k in writers if k not in allowed and k[0] == "_lowlevel" and "." not in k[1]]:
+        # a private helper that does the locked store on behalf of user-facing entry points only: set_trickery_enabled itself, or
+        # functions nothing in the package calls (new public API); the library still never flips the switch on its own
+        cs = callers_of(key[1])
+        if cs and all(m_.name == "_lowlevel" and (q_ == "set_trickery_enabled" or (q_ and "." not in q_ and not q_.startswith("_") and not callers_of(q_))) for m_, q_ in cs) \
+                and any(q_ == "set_trickery_enabled" for _, q_ in cs) and ("_lowlevel", "set_trickery_enabled") not in writers:
+            allowed = (allowed - {("_lowlevel", "set_trickery_enabled")}) | {key}
+            ctx.R.note(f"MODE-1: {key[1]} performs the store for set_trickery_enabled (callers: {sorted({q_ for _, q_ in cs})}, none of them called from inside the package)") if hasattr(ctx.R, "note") else None
     for key, sts in writers.items():
         for m, s in sts:
             if key not in allowed:
@@ -720,7 +783,17 @@ def mode_rules(ctx: Ctx) -> None:
     # MODE-2
     st = mod.fn("set_trickery_enabled")
     p = st.args.args[0].arg
-    if all(norm(s.value) == p for m, s in writers[("_lowlevel", "set_trickery_enabled")]):
+    setter_key = [k for k in allowed if k[1] != "_check_trickery_available"][0]
+    if setter_key[1] != "set_trickery_enabled":
+        hf = mod.fn(setter_key[1])
+        hp = hf.args.args[0].arg if hf.args.args else None
+        via = [c_ for c_ in calls_in(st, True) if norm(c_.func) == setter_key[1]]
+        if hp is not None and all(norm(s.value) == hp for m, s in writers[setter_key]) and len(via) == 1 and len(via[0].args) == 1 and not via[0].keywords and norm(via[0].args[0]) == p \
+                and not any(isinstance(w_, ast.Name) and w_.id == p and isinstance(w_.ctx, ast.Store) for w_ in ast.walk(st)):
+            ctx.R.ok("MODE-2", f"set_trickery_enabled stores its argument unchanged through {setter_key[1]} (None restores auto-detection)")
+        else:
+            ctx.R.undecided("MODE-2", f"set_trickery_enabled stores through {setter_key[1]} in a form that is not recognised")
+    elif all(norm(s.value) == p for m, s in writers[("_lowlevel", "set_trickery_enabled")]):
         ctx.R.ok("MODE-2", "set_trickery_enabled stores its argument unchanged (None restores auto-detection)")
     else:
         ctx.R.fail("MODE-2", mod, st, "set_trickery_enabled must store its argument unchanged: None must restore auto-detection, True/False must stick", construct="_can_use_trickery = enabled")
@@ -742,7 +815,8 @@ def mode_rules(ctx: Ctx) -> None:
     else:
         ctx.R.fail("MODE-2", mod, last, "_check_trickery_available must return the switch value")
     # MODE-3 failing self-test
-    hs = [h for t in contains(ck, ast.Try) for h in t.handlers if h.type is not None and "Exception" in norm(h.type)]
+    hs = [h for t in contains(ck, ast.Try) for h in t.handlers if h.type is not None and "Exception" in norm(h.type)
+          and not (len(h.body) == 1 and isinstance(h.body[0], ast.Raise) and h.body[0].exc is None)]        # a handler that only re-raises handles nothing
     if len(hs) == 1:
         h = hs[0]
         warn_ok = any(isinstance(c, ast.Call) and norm(c.func) == "warnings.warn" and any(norm(a) == "InspectionWarning" for a in c.args) for c in ast.walk(h))
